@@ -3,7 +3,8 @@
 
 For each <worktree>/out/<i>/ (patch.diff, demo.py, notes.md):
   1. in the scratch worktree (clean): demo passes; apply patch: demo fails; baseline tests unchanged; revert;
-  2. apply the patch to /repo, run the property's quick check (and optionally others), undo it straight afterwards;
+  2. apply the patch in the scratch worktree (moved to /repo's HEAD), run the property's quick check (and optionally
+     others) against that tree, undo it straight afterwards;
   3. if confirmed, store under /verif/seeded/<PROP>-<i>/ with meta.json.
 """
 import json
@@ -60,23 +61,29 @@ def main():
         if not confirmed:
             print("   ", o_clean[-300:], "|", o_mut[-300:], missing[:3])
             continue
-        # run the checks against /repo with the change applied, undo straight afterwards
-        rc, o = sh(f"git -C /repo apply {d}/patch.diff")
+        # run the checks against the change: the scratch worktree is moved to /repo's current HEAD, the change applied
+        # there, and the checks pointed at that tree (HUGR_SRC / HUGR_REPO) with scratch output directories
+        # (VERIF_SCRATCH), so /repo itself is never touched; undone straight afterwards
+        head = sh("git -C /repo rev-parse HEAD")[1].strip()
+        sh(f"git checkout -q --detach {head}", cwd=wt)
+        rc, o = sh(f"git apply {d}/patch.diff", cwd=wt)
         if rc != 0:
-            print("  patch does not apply to /repo:", o[:300])
+            print("  patch does not apply to /repo's HEAD:", o[:300])
             continue
         results = {}
+        scratch = f"/tmp/try-out-{prop}"
+        cenv = dict(os.environ, HUGR_SRC=f"{wt}/hugr-py/src", HUGR_REPO=wt, VERIF_SCRATCH=scratch)
         try:
             for p in [prop, *extra_props]:
-                rcc, oc = sh(f"./check {p}", cwd=VERIF, timeout=1200)
+                rcc, oc = sh(f"./check {p}", cwd=VERIF, timeout=1800, env=cenv)
                 keys = [l.split()[1] for l in oc.splitlines() if l.strip().startswith("violation ")]
                 results[p] = {"rc": rcc, "violations": keys[:8]}
                 print(f"  check {p}: rc={rcc} {'DETECTED' if rcc == 1 else ('HARNESS-ERROR' if rcc == 2 else 'MISSED')} {keys[:4]}")
                 if rcc == 2:
                     print("   ", [l for l in oc.splitlines() if "HARNESS" in l][:2])
         finally:
-            sh("git -C /repo checkout -- .")
-            sh(f"rm -f {VERIF}/replays/*.json")
+            sh("git checkout -- .", cwd=wt)
+            shutil.rmtree(scratch, ignore_errors=True)
         dst = f"{VERIF}/seeded/{sid}"
         os.makedirs(dst, exist_ok=True)
         for f in ("patch.diff", "demo.py", "notes.md"):
@@ -85,18 +92,18 @@ def main():
         meta = {"id": sid, "property": prop, "source": "independent sub-agent given only the property text and a scratch worktree",
                 "needs_to_manifest": "see notes.md",
                 "confirmed": {"demo_clean_rc": rc_clean, "demo_with_change_rc": rc_mut, "baseline_tests_lost": len(missing)},
-                "ran": [f"./check {p}" for p in results], "results": results,
+                "ran": [f"./check {p}" for p in results], "results": results, "first_result": results[prop]["rc"],
                 "detected_by": [p for p, r in results.items() if r["rc"] == 1]}
         if os.path.exists(f"{dst}/meta.json"):
             try:
                 oldm = json.load(open(f"{dst}/meta.json"))
                 if "history" in oldm:
                     meta["history"] = oldm["history"]
+                if "first_result" in oldm:
+                    meta["first_result"] = oldm["first_result"]
             except Exception:  # noqa: BLE001
                 pass
         json.dump(meta, open(f"{dst}/meta.json", "w"), indent=1)
-    rc, o = sh("git -C /repo status --short")
-    print("repo status after:", o.strip() or "clean")
 
 
 if __name__ == "__main__":
